@@ -520,3 +520,7 @@ ASSUMPTIONS = [
     "loadability after a crash is required for last and best; for every recorded epoch only if everything is kept and both formats contain the epoch field",
 ]
 GROUP_KEYS = ("oracle", "exc", "fmt_unique", "keep2", "hist_appended", "fault", "role", "part")
+
+
+def reset_caches():
+    _TWIN_CACHE.clear()
